@@ -23,6 +23,7 @@ RUNNER = os.path.join(VERIF, "runner", "modelrun")
 PY = "/venv/bin/python"
 NCPU = min(16, os.cpu_count() or 4)
 HANG_LIMIT = 48
+BATCH = 120
 
 # exception codes shared with Common/Val.v
 E = dict(Index=1, Key=2, Value=3, Type=4, Runtime=5, Attribute=6, Recursion=7, Assertion=8, StopIteration=9,
@@ -420,8 +421,9 @@ def run_impl(prop, cases, extra_env=None):
             p = subprocess.Popen([PY, "-m", "harness.core", "--worker", prop.id], stdin=subprocess.PIPE,
                                  stdout=subprocess.PIPE, stderr=subprocess.DEVNULL, text=True, env=env, cwd=VERIF,
                                  start_new_session=True)
-            inp = "".join(json.dumps([i, cases[i]]) + "\n" for i in pending)
-            budget = 30 + len(pending) * (prop.case_timeout + 0.5)
+            batch = pending[:BATCH]          # small batches: the hang counter is consulted between them
+            inp = "".join(json.dumps([i, cases[i]]) + "\n" for i in batch)
+            budget = 30 + len(batch) * (prop.case_timeout + 0.5)
             try:
                 o, _ = p.communicate(inp, timeout=budget)
             except subprocess.TimeoutExpired:
@@ -443,13 +445,13 @@ def run_impl(prop, cases, extra_env=None):
                         continue
                     results[i] = obs
                     got.add(i)
-            rest = [i for i in pending if i not in got]
+            rest = [i for i in batch if i not in got]
             hung[0] += sum(1 for i in got if results[i] == err(E["Diverges"]))
             if rest:
                 results[rest[0]] = err(E["Crash"])  # the case the worker died / hung on
                 hung[0] += 1
                 rest = rest[1:]
-            pending = rest
+            pending = rest + pending[len(batch):]
     ts = [threading.Thread(target=work, args=(sh,)) for sh in shards]
     [t.start() for t in ts]
     [t.join() for t in ts]
@@ -509,13 +511,14 @@ def shrink(prop, case, want):
     cur = case
     improved = True
     rounds = 0
-    while improved and rounds < 40:
+    t_end = time.time() + 45          # shrinking is a convenience: bounded wall time
+    while improved and rounds < 40 and time.time() < t_end:
         improved = False
         rounds += 1
         cands = []
         for c in prop.shrink_candidates(cur):
             cands.append(c)
-            if len(cands) >= 64:
+            if len(cands) >= 32:
                 break
         if not cands:
             break
